@@ -299,6 +299,10 @@ public:
 		return s;
 	}
 
+	static volatile sig_atomic_t& sigpipe_cell() { static volatile sig_atomic_t n = 0; return n; }
+	static int sigpipe_count() { return (int)sigpipe_cell(); }
+	static void sigpipe_handler(int) { sigpipe_cell() = sigpipe_cell() + 1; }
+
 	void run_one(const Mode& m, uint64_t idx, std::unordered_set<uint64_t>& seen)
 	{
 		Ctx c;
@@ -308,9 +312,14 @@ public:
 		sh->desc_len = 0;
 		sh->started++;
 		sh->in_case = 1;
+		int sigpipes0 = sigpipe_count();
 		try { m.fn(c); }
 		catch (CaseAbort&) {}
 		catch (std::bad_alloc&) { c.count("bad_alloc"); }
+		// the harnesses' own socket writes use MSG_NOSIGNAL, so a SIGPIPE can only come from a write inside the library:
+		// with the default disposition it would have killed the whole process (server and every other connection)
+		try { if (sigpipe_count() != sigpipes0) c.fail("sigpipe-raised-by-library-write", fmt("%d SIGPIPE signals during the case (the process would have been killed)", sigpipe_count() - sigpipes0)); }
+		catch (CaseAbort&) {}
 		sh->in_case = 0;
 		sh->done++;
 		sh->evals++;
@@ -373,7 +382,7 @@ public:
 		anom_fd = open(anpath.c_str(), O_WRONLY | O_CREAT | O_TRUNC | O_APPEND, 0666);
 		if (anom_fd < 0) { perror("anoms"); return 2; }
 		errpath = opt.out + "/child.err";
-		signal(SIGPIPE, SIG_IGN);
+		signal(SIGPIPE, sigpipe_handler);   // counted, not ignored: see run_one
 		double t0 = now();
 		if (setup) setup(opt);
 
